@@ -12,6 +12,7 @@ import (
 	"fmt"
 	"math/rand"
 	"os"
+	"os/exec"
 	"path/filepath"
 	"runtime"
 	"sort"
@@ -31,6 +32,9 @@ type cfg struct {
 	MaxActive, Workers, PerWorker   int
 	Reopens                         int
 	Discard                         bool
+	Legacy                          bool // continue on a copy of test/data_v1.1.0 (commit-log entries without Alh)
+	VLogCache                       int
+	Truncate                        bool
 }
 
 func pick(rng *rand.Rand, run int) cfg {
@@ -48,6 +52,14 @@ func pick(rng *rand.Rand, run int) cfg {
 		Reopens:    rng.Intn(3),
 	}
 	c.Discard = c.Ext
+	c.Legacy = run%11 == 7
+	if run%4 == 2 {
+		c.VLogCache = 8
+	}
+	c.Truncate = run%3 == 0
+	if c.Legacy {
+		c.Ext, c.Discard, c.Embedded, c.Prealloc, c.IOConc = run%2 == 1, run%2 == 1, false, false, 1
+	}
 	if c.Prealloc {
 		c.FileSize = 4096
 	}
@@ -58,6 +70,11 @@ func pick(rng *rand.Rand, run int) cfg {
 }
 
 func (c cfg) opts() *store.Options {
+	if c.Legacy {
+		// an existing database keeps the options it was created with; only behaviour switches are set
+		return store.DefaultOptions().WithSynced(c.Synced).WithSyncFrequency(2 * time.Millisecond).WithExternalCommitAllowance(c.Ext).
+			WithMaxActiveTransactions(c.MaxActive).WithLogger(logger.NewMemoryLoggerWithLevel(logger.LogError))
+	}
 	o := store.DefaultOptions().WithSynced(c.Synced).WithSyncFrequency(2 * time.Millisecond).
 		WithEmbeddedValues(c.Embedded).WithPreallocFiles(c.Prealloc).WithWriteTxHeaderVersion(c.HdrVersion).
 		WithMaxIOConcurrency(c.IOConc).WithFileSize(c.FileSize).WithMaxActiveTransactions(c.MaxActive).
@@ -65,6 +82,9 @@ func (c cfg) opts() *store.Options {
 		WithLogger(logger.NewMemoryLoggerWithLevel(logger.LogError))
 	wb := []int{256, 4096, 1 << 16}[(c.FileSize+c.MaxActive)%3]
 	o.WithWriteBufferSize(wb)
+	if c.VLogCache > 0 {
+		o.WithVLogCacheSize(c.VLogCache)
+	}
 	o.WithIndexOptions(o.IndexOpts.WithFlushThld(5).WithMaxNodeSize(512).WithCompactionThld(1).WithFlushBufferSize(1 << 14).WithCacheSize(64))
 	o.WithAHTOptions(o.AHTOpts.WithWriteBufferSize(1 << 14).WithSyncThld(1 + c.MaxActive%3))
 	return o
@@ -88,7 +108,14 @@ func contentDigest(es []kv) [sha256.Size]byte {
 	return d
 }
 
+var repoPath = "/repo"
+
+const unavailable = 999999
+
 type run struct {
+	truncatedUpto uint64
+	pass          int
+
 	c    cfg
 	path string
 	tr   *storetrace.Tracer
@@ -100,8 +127,17 @@ type run struct {
 // observe re-reads the whole committed history through three read paths.
 func (r *run) observe() {
 	st := r.st
+	r.pass++
+	if r.pass%2 == 0 {
+		// alternate which read path touches a value first (value caches are filled by the first reader)
+		n, _ := st.CommittedAlh()
+		txh := store.NewTx(st.MaxTxEntries(), st.MaxKeyLen())
+		for id := uint64(1); id <= n; id++ {
+			st.ExportTx(id, false, false, txh)
+		}
+	}
 	n, _ := st.CommittedAlh()
-	txh := store.NewTx(8, 32)
+	txh := store.NewTx(st.MaxTxEntries(), st.MaxKeyLen())
 	alhs := make([][sha256.Size]byte, 0, n)
 	for id := uint64(1); id <= n; id++ {
 		err := st.ReadTx(id, false, txh)
@@ -122,10 +158,11 @@ func (r *run) observe() {
 		}
 		alhs = append(alhs, alh)
 		var es []kv
+		valuesMissing := false
 		for _, e := range txh.Entries() {
 			v, err := st.ReadValue(e)
 			if err != nil {
-				v = []byte("ERR:" + err.Error())
+				valuesMissing = true
 			}
 			var md []byte
 			if e.Metadata() != nil {
@@ -133,12 +170,22 @@ func (r *run) observe() {
 			}
 			es = append(es, kv{append([]byte(nil), e.Key()...), md, v})
 		}
-		r.tr.Log(r.path, storetrace.Event{"ev": "Observed", "id": id, "alh": r.tr.Num(alh), "chainOk": chainOk, "content": r.tr.Num(contentDigest(es)), "via": "ReadTx"})
+		content := r.tr.Num(contentDigest(es))
+		if valuesMissing {
+			content = unavailable // accepted by the specification only below the truncation point
+		}
+		r.tr.Log(r.path, storetrace.Event{"ev": "Observed", "id": id, "alh": r.tr.Num(alh), "chainOk": chainOk, "content": content, "via": "ReadTx"})
 		r.res.Evaluations++
-		// exported form must be stable
+		// exported form must be stable (below the truncation point it legitimately switches to digests)
 		ex, err := st.ExportTx(id, false, false, txh)
 		if err == nil {
-			r.tr.Log(r.path, storetrace.Event{"ev": "Observed", "id": id, "alh": r.tr.Num(alh), "chainOk": true, "content": r.tr.Num(sha256.Sum256(ex)), "via": "ExportTx"})
+			xc := r.tr.Num(sha256.Sum256(ex))
+			if id < r.truncatedUpto {
+				xc = unavailable
+			}
+			r.tr.Log(r.path, storetrace.Event{"ev": "Observed", "id": id, "alh": r.tr.Num(alh), "chainOk": true, "content": xc, "via": "ExportTx"})
+		} else if id < r.truncatedUpto {
+			r.tr.Log(r.path, storetrace.Event{"ev": "Observed", "id": id, "alh": r.tr.Num(alh), "chainOk": true, "content": unavailable, "via": "ExportTx"})
 		} else {
 			r.tr.Log(r.path, storetrace.Event{"ev": "Observed", "id": id, "alh": -1, "chainOk": false, "content": -1, "via": "ExportTx", "err": err.Error()})
 		}
@@ -259,7 +306,15 @@ func runOne(dir string, seed int64, runIdx int, res *vh.Result, out *os.File) {
 	r := &run{c: c, path: filepath.Join(root, "st"), tr: tr, res: res}
 	tr.MaxActive[r.path] = c.MaxActive
 	tr.Log(r.path, storetrace.Event{"ev": "Reset", "synced": c.Synced, "ext": c.Ext, "cfg": fmt.Sprintf("%+v", c)})
-	r.open(true)
+	if c.Legacy {
+		vh.Must(exec.Command("cp", "-r", filepath.Join(repoPath, "test/data_v1.1.0/defaultdb"), r.path).Run(), "copy legacy database")
+		st, err := store.Open(r.path, c.opts())
+		vh.Must(err, "open legacy store")
+		r.st = st
+		vh.Must(tr.Adopt(r.path, st), "tracer.Adopt")
+	} else {
+		r.open(true)
+	}
 	for cycle := 0; cycle <= c.Reopens; cycle++ {
 		ctx, cancelAll := context.WithCancel(context.Background())
 		var wg sync.WaitGroup
@@ -363,6 +418,19 @@ func runOne(dir string, seed int64, runIdx int, res *vh.Result, out *os.File) {
 		}
 		r.observe()
 		r.state()
+		if c.Truncate && cycle == 0 {
+			if n, _ := r.st.CommittedAlh(); n >= 4 {
+				upto := n/2 + 1
+				if err := r.st.TruncateUptoTx(upto); err == nil {
+					r.truncatedUpto = upto
+					tr.Log(r.path, storetrace.Event{"ev": "Truncated", "n": upto})
+					res.Count("truncations", 1)
+					r.observe()
+				} else {
+					res.Count("truncate-error", 1)
+				}
+			}
+		}
 		if cycle < c.Reopens {
 			vh.Must(r.st.Close(), "store.Close")
 			r.open(false)
@@ -391,6 +459,7 @@ func main() {
 	runs := flag.Int("runs", 10, "number of runs (config classes rotate with the run index)")
 	dir := flag.String("dir", "", "scratch directory")
 	outp := flag.String("out", "", "ndjson trace output")
+	flag.StringVar(&repoPath, "repo", "/repo", "repository root (for the legacy database fixture)")
 	flag.Parse()
 	out, err := os.Create(*outp)
 	vh.Must(err, "create trace file")
